@@ -96,7 +96,15 @@ def cell_readers():
         return catalogue.digest([m.__dict__[n].CALC._crc_register._lookup_table
                                  for m, n in ((crc8, "CRC8"), (crc9, "CRC9"), (crc16, "CRC16"), (crc32, "CRC32"))])
 
+    def numeric_context():
+        # process-wide numeric settings a codec has no business changing: the decimal context, numpy's error handling
+        import decimal
+        import numpy
+        c = decimal.getcontext()
+        return repr((c.rounding, c.prec, sorted(numpy.geterr().items())))
+
     return {
+        "numeric_context": numeric_context,
         "crc8_reg": reg("okdmr.dmrlib.etsi.crc.crc8", "CRC8"), "crc9_reg": reg("okdmr.dmrlib.etsi.crc.crc9", "CRC9"),
         "crc16_reg": reg("okdmr.dmrlib.etsi.crc.crc16", "CRC16"), "crc32_reg": reg("okdmr.dmrlib.etsi.crc.crc32", "CRC32"),
         "crc_tables": tables,
